@@ -184,6 +184,10 @@ func fieldCallKey(v ssa.Value) string {
 	if !ok || ld.Op != token.MUL {
 		return ""
 	}
+	if g, isGlobal := ld.X.(*ssa.Global); isGlobal && g.Pkg != nil {
+		// a call through a function-typed package-level variable: "var:<pkg>.<Name>"
+		return "var:" + g.Pkg.Pkg.Path() + "." + g.Name()
+	}
 	fa, ok := ld.X.(*ssa.FieldAddr)
 	if !ok {
 		return ""
